@@ -240,7 +240,21 @@ class GymStateWrapper(gym.Wrapper):
             ValueError('GymEnvironment does not have a state space')
 
         super().__init__(env)
-        self.observation_space = env.state_space
+
+    @property
+    def observation_space(self):
+        """the state space of the wrapped environment.
+
+        NOTE: read from the environment every time, so that it stays
+        consistent when the state representation is switched.
+        """
+        return self.env.state_space
+
+    @observation_space.setter
+    def observation_space(self, space):
+        # assigned by the constructor of older `gym.Wrapper` versions;  the
+        # state space of the wrapped environment is always used instead
+        pass
 
     @property
     def observation(self) -> Dict[str, np.ndarray]:
